@@ -47,27 +47,35 @@ CharLits == {
   Lit("char", <<"SQ","BS","DQ","SQ">>, <<"BS","DQ">>, 34, <<>>),
   Lit("char", <<"SQ","BS","a","SQ">>, <<"BS","a">>, 7, <<>>) }
 StrLits == {
-  Lit("str", <<"DQ","a","b","c","DQ">>, <<"a","b","c">>, 0, <<97,98,99>>),
-  Lit("str", <<"DQ","DQ">>, <<>>, 0, <<>>),
-  Lit("str", <<"DQ","a","BS","DQ","b","DQ">>, <<"a","DQ","b">>, 0, <<97,34,98>>),
-  Lit("str", <<"DQ","BS","DQ","a","b","DQ">>, <<"DQ","a","b">>, 0, <<34,97,98>>),
-  Lit("str", <<"DQ","a","b","BS","DQ","DQ">>, <<"a","b","DQ">>, 0, <<97,98,34>>),
-  Lit("str", <<"DQ","BS","DQ","DQ">>, <<"DQ">>, 0, <<34>>),
-  Lit("str", <<"DQ","BS","BS","DQ">>, <<"BS","BS">>, 0, <<92>>),
-  Lit("str", <<"DQ","a","BS","BS","DQ">>, <<"a","BS","BS">>, 0, <<97,92>>),
-  Lit("str", <<"DQ","BS","BS","BS","DQ","DQ">>, <<"BS","BS","DQ">>, 0, <<92,34>>),
-  Lit("str", <<"DQ","SQ","DQ">>, <<"SQ">>, 0, <<39>>),
-  Lit("str", <<"DQ","BS","SQ","DQ">>, <<"BS","SQ">>, 0, <<39>>),
-  Lit("str", <<"DQ","a","BS","n","b","DQ">>, <<"a","BS","n","b">>, 0, <<97,10,98>>),
-  Lit("str", <<"DQ","a","SP","b","DQ">>, <<"a","SP","b">>, 0, <<97,32,98>>),
-  Lit("str", <<"DQ","/","/","DQ">>, <<"/","/">>, 0, <<47,47>>),
-  Lit("str", <<"DQ","/","*","DQ">>, <<"/","*">>, 0, <<47,42>>),
-  Lit("str", <<"DQ","?",":","DQ">>, <<"?",":">>, 0, <<63,58>>) }
+  Lit("str", <<"DQ","a","b","c","DQ">>, <<"a","b","c">>, 1, <<97,98,99>>),
+  Lit("str", <<"DQ","DQ">>, <<>>, 1, <<>>),
+  Lit("str", <<"DQ","a","BS","DQ","b","DQ">>, <<"a","DQ","b">>, 1, <<97,34,98>>),
+  Lit("str", <<"DQ","BS","DQ","a","b","DQ">>, <<"DQ","a","b">>, 1, <<34,97,98>>),
+  Lit("str", <<"DQ","a","b","BS","DQ","DQ">>, <<"a","b","DQ">>, 1, <<97,98,34>>),
+  Lit("str", <<"DQ","BS","DQ","DQ">>, <<"DQ">>, 1, <<34>>),
+  Lit("str", <<"DQ","BS","BS","DQ">>, <<"BS","BS">>, 1, <<92>>),
+  Lit("str", <<"DQ","a","BS","BS","DQ">>, <<"a","BS","BS">>, 1, <<97,92>>),
+  Lit("str", <<"DQ","BS","BS","BS","DQ","DQ">>, <<"BS","BS","DQ">>, 1, <<92,34>>),
+  Lit("str", <<"DQ","SQ","DQ">>, <<"SQ">>, 1, <<39>>),
+  Lit("str", <<"DQ","BS","SQ","DQ">>, <<"BS","SQ">>, 1, <<39>>),
+  Lit("str", <<"DQ","a","BS","n","b","DQ">>, <<"a","BS","n","b">>, 1, <<97,10,98>>),
+  Lit("str", <<"DQ","a","SP","b","DQ">>, <<"a","SP","b">>, 1, <<97,32,98>>),
+  Lit("str", <<"DQ","/","/","DQ">>, <<"/","/">>, 1, <<47,47>>),
+  Lit("str", <<"DQ","/","*","DQ">>, <<"/","*">>, 1, <<47,42>>),
+  Lit("str", <<"DQ","?",":","DQ">>, <<"?",":">>, 1, <<63,58>>) }
+
+\* prefixed, raw and suffixed literals (val of a string literal = size of one element)
+WideAB  == Lit("str", <<"L","DQ","a","b","DQ">>, <<"a","b">>, 4, <<97, 98>>)
+U8X     == Lit("str", <<"u","8","DQ","x","DQ">>, <<"x">>, 1, <<120>>)
+RawNL   == Lit("str", <<"R","DQ","(","a","BS","n","b",")","DQ">>, <<"a","BS","n","b">>, 1, <<97, 92, 110, 98>>)
+RawQ    == Lit("str", <<"R","DQ","x","(","a","DQ","b",")","x","DQ">>, <<"a","DQ","b">>, 1, <<97, 34, 98>>)
+WideCh  == Lit("char", <<"L","SQ","a","SQ">>, <<"a">>, 97, <<>>)
+PrefixedLits == {WideAB, U8X, RawNL, RawQ}
 
 ValueOps  == LeftAssocOps                      \* 18 binary operators with a value
 AllBinOps == LeftAssocOps \cup AssignOps \cup {COMMA}
 SignOps   == {<<"+">>, <<"-">>, <<"!">>, <<"~">>}
-TypesUsed == {<<"i","n","t">>, <<"l","o","n","g">>}
+TypesUsed == {<<"i","n","t">>}   \* OCCA normalises type spellings (long -> long int): only int is compared
 
 \* G1: every ordered pair of binary operators, in both nestings (precedence and associativity)
 BinBin == {Bin(o1, Bin(o2, A, Bv), Cv) : o1 \in AllBinOps, o2 \in AllBinOps}
@@ -96,7 +104,8 @@ Terns  == {Tern(x, A, D) : x \in Inner} \cup {Tern(A, x, D) : x \in Inner} \cup 
 Lits   == {Bin(<<"+">>, A, l) : l \in PrimLits \cup CharLits} \cup {Un(<<"-">>, l) : l \in PrimLits}
           \cup PrimLits \cup CharLits \cup StrLits
           \cup {Index(s, N1) : s \in StrLits} \cup {Index(s, Lit("prim", <<"0">>, <<"0">>, 0, <<>>)) : s \in StrLits}
-          \cup {SizeofE(s) : s \in StrLits}
+          \cup {SizeofE(s) : s \in StrLits \cup PrefixedLits}
+          \cup PrefixedLits \cup {WideCh, Bin(<<"+">>, A, WideCh)} \cup {Index(s, N1) : s \in PrefixedLits \ {U8X}}
           \cup {Bin(<<"=","=">>, c1, c2) : c1 \in CharLits, c2 \in {Lit("char", <<"SQ","BS","SQ","SQ">>, <<"SQ">>, 39, <<>>)}}
 \* G6: calls, subscripts, casts, sizeof, member access, explicit parentheses
 Args   == {A, Bin(<<"+">>, A, Bv), Bin(COMMA, A, Bv), Tern(A, Bv, Cv), Bin(<<"=">>, A, Bv), Un(<<"-">>, A), Post(<<"+","+">>, A)}
